@@ -704,8 +704,9 @@ class Skip(Exception):
 def build_cases(chem, S, result):
     """-> list of dicts {coq: text of a ccase, sim, expected: {e: F}, after: {e: F}, amounts: [...], rows: [...]}"""
     dumps = split_dumps(result.get("dump", ""))
-    if len(dumps) != len(S["sims"]) + 1:
-        raise Skip("dump count %d != %d" % (len(dumps), len(S["sims"]) + 1))
+    if len(dumps) < len(S["sims"]) + 1:
+        raise Skip("dump count %d < %d" % (len(dumps), len(S["sims"]) + 1))
+    dumps = dumps[-(len(S["sims"]) + 1):]      # a failed previous job can leave a stale block in front
     rows = vlib.table_dicts(result["tables"].get("1"))
     out = []
     prev = parse_dump(dumps[0])
@@ -805,7 +806,8 @@ def build_cases(chem, S, result):
                             obs[e] += v * F(m)
             steprows.append((i, a_k, obs))
         out.append({"sim": simno, "coq": coq, "expected": expected, "after": after, "amounts": amounts, "nsteps": nsteps,
-                    "amt": amt, "rinv": rinv, "base": base, "steprows": steprows, "has_mix": bool(sim["mix"])})
+                    "amt": amt, "rinv": rinv, "base": base, "steprows": steprows, "has_mix": bool(sim["mix"]),
+                    "incr": sim["incr"], "c_step": c_step})
         prev = cur
     return out
 
@@ -822,7 +824,7 @@ def diagnose(case):
     exp, aft = case["expected"], case["after"]
     for e in sorted(set(exp) | set(aft)):
         d = abs(aft.get(e, F(0)) - exp.get(e, F(0)))
-        if d > TOL * scale_py(exp, e):
+        if d > TOL * scale_py(exp, e) + FLOOR:
             bad.append({"element": e, "expected": float(exp.get(e, 0)), "observed": float(aft.get(e, 0)),
                         "deviation": float(d), "allowed": float(TOL * scale_py(exp, e))})
     for a in case["amounts"]:
@@ -839,7 +841,244 @@ def diagnose_rows(case):
                 continue
             ex = case["base"].get(e, F(0)) + a_k * case["rinv"].get(e, F(0))
             sc = abs(ex)
-            if abs(v - ex) > TOL * sc + F(1, 10 ** 30):
+            if abs(v - ex) > TOL * sc + FLOOR:
                 bad.append({"step": i, "element": e, "expected": float(ex), "observed": float(v), "deviation": float(abs(v - ex)),
                             "allowed": float(TOL * sc)})
     return bad
+
+
+# ------------------------------------------------------------------------------------------------ the check
+
+FLOOR = F(1, 10 ** 24)        # absolute floor: less than one atom (1/N_A = 1.66e-24 mol)
+KEY_RK = "C02:rk_kinetics-ignores-MASS_BALANCE"
+GEN_FILE = os.path.join(vlib.COQ, "Gen", "Gen_C02_Step.v")
+
+
+def gen():
+    sys.path.insert(0, os.path.join(vlib.VERIF, "translator"))
+    import importlib
+    import c02_step
+    importlib.reload(c02_step)
+    try:
+        text = c02_step.generate(vlib.REPO)
+    except Exception as ex:
+        # leave a file that cannot satisfy the obligations rather than a stale one
+        vlib.write_if_changed(GEN_FILE, "(* translator refused: %s *)\n" % str(ex).replace("*)", "* )")[:500])
+        raise
+    vlib.write_if_changed(GEN_FILE, text)
+
+
+def corpus_systems():
+    """fixed cases run first on every run"""
+    rk = {"db": "phreeqc.dat",
+          "sols": [{"n": 1, "pH": 7.0, "temp": 25, "water": 1, "comp": [("Na", 2.0), ("K", 1.0), ("Ca", 1.0)]}],
+          "exchange": {"kind": "equil", "X": 0.02}, "surface": None, "pp": None, "gas": None, "ss": None,
+          "kin": {"comps": [("Quartz", [("SiO2", 1)], "Quartz", 0.1, 1e-8)], "time": 100, "nsteps": 1, "rk": 3},
+          "sims": [{"incr": False, "mix": None, "temps": None, "run_cells": False,
+                    "rxn": {"reactants": [("SrCl2", -1)], "units": "moles", "equal": False, "steps": [1e-6], "count": 1}}],
+          "corpus": "rk_kinetics-negative-moles"}
+    probe = {"db": "phreeqc.dat",
+             "sols": [{"n": 1, "pH": 7.0, "temp": 25, "water": 1, "comp": [("Na", 10.0), ("Ca", 2.0), ("C(4)", 4.0)]},
+                      {"n": 2, "pH": 6.0, "temp": 25, "water": 1, "comp": [("K", 5.0), ("Na", 1.0)]}],
+             "exchange": {"kind": "equil", "X": 0.05},
+             "surface": {"w": 0.002, "s": 0.0001, "area": 600, "grams": 1, "mode": "donnan"},
+             "pp": [("Calcite", 0.0, 0.01), ("Gypsum", 0.0, 0)],
+             "gas": {"fixed_p": False, "p": 1, "vol": 1, "comps": [("CO2(g)", 0.01), ("O2(g)", 0.2)]},
+             "ss": [("CaSrSO4", [("Anhydrite", 0.001), ("Celestite", 0.0005)])],
+             "kin": {"comps": [("Quartz", [("SiO2", 1)], "Quartz", 1.0, 1e-7)], "time": 1000, "nsteps": 2, "rk": 3},
+             "sims": [{"incr": False, "mix": None, "temps": None, "run_cells": False,
+                       "rxn": {"reactants": [("HCl", 1), ("CaCl2", 0.5)], "units": "mmol", "equal": True, "steps": [1.0], "count": 2}},
+                      {"incr": True, "mix": [(1, 0.7), (2, 0.3)], "temps": None, "run_cells": False,
+                       "rxn": {"reactants": [("NaOH", 1)], "units": "umol", "equal": False, "steps": [100.0, 200.0, 50.0], "count": 3}}],
+             "corpus": "all-reactant-kinds"}
+    return [rk, probe]
+
+
+def features(S):
+    f = [k for k in ("exchange", "surface", "pp", "gas", "ss", "kin") if S[k]]
+    if S["surface"]:
+        f.append("surf:" + S["surface"]["mode"])
+    if any(s["mix"] for s in S["sims"]):
+        f.append("mix")
+    if any(s["rxn"] for s in S["sims"]):
+        f.append("reaction")
+    if any(s["incr"] for s in S["sims"]):
+        f.append("incremental")
+    f.append("chain%d" % len(S["sims"]))
+    return f
+
+
+CASES_HEADER = """From Coq Require Import QArith String List ZArith Bool.
+From IPV.C02 Require Import Inv Model StepTable Checker%s.
+Import ListNotations.
+Local Open Scope string_scope.
+Local Open Scope list_scope.
+Open Scope Q_scope.
+Definition tol : Q := %s.
+Definition floor : Q := %s.
+"""
+
+
+def c_rows(case, sim_rxn, S):
+    """Coq rcase for the per-step SYS() rows of one simulation (None if there is nothing to compare)"""
+    rows = []
+    skip_ho = bool(S["surface"]) and S["surface"]["mode"] in ("donnan", "donnan_oci", "diffuse_layer")
+    for i, a_k, obs in case["steprows"]:
+        items = [(e, v) for e, v in sorted(obs.items()) if not (skip_ho and e in ("H", "O"))]
+        rows.append(cinv(items))
+    if not rows:
+        return None
+    base = cinv(sorted((e, v) for e, v in case["base"].items() if e != "Charge"))
+    rxn = cinv(sorted(case["rinv"].items()))
+    return "(mkRows %s %s %s %s [%s])" % (base, rxn, "true" if case["incr"] else "false", case["c_step"], "; ".join(rows))
+
+
+def coq_verdicts(cases_coq, rows_coq, use_gen, timeout=900):
+    """Evaluate the verified checker inside Coq. Returns (list of bool, list of bool) or None on failure."""
+    stepf = "gen_stepf" if use_gen else "model_stepf"
+    hdr = CASES_HEADER % (" GenProofs" if use_gen else "", cq(TOL), cq(FLOOR))
+    txt = [hdr]
+    txt.append("Definition cases : list ccase := [\n%s\n]." % ";\n".join(cases_coq))
+    txt.append("Definition rcases : list rcase := [\n%s\n]." % ";\n".join(rows_coq))
+    txt.append("Eval vm_compute in (map (check_case %s tol floor) cases)." % stepf)
+    txt.append("Eval vm_compute in (map (check_rows %s tol floor) rcases)." % stepf)
+    rc, out = vlib.coq_eval("\n".join(txt) + "\n", timeout=timeout)
+    if rc != 0:
+        return None, out
+    blocks = re.findall(r"=\s*(\[[^\]]*\]|nil)\s*:\s*list bool", out.replace("\n", " "))
+    if len(blocks) != 2:
+        return None, out
+    res = [[t == "true" for t in re.findall(r"true|false", b)] for b in blocks]
+    if len(res[0]) != len(cases_coq) or len(res[1]) != len(rows_coq):
+        return None, out
+    return res, out
+
+
+def run_systems(ctx, chem, systems, use_gen, stats, label):
+    """run the systems through the library, build cases, let Coq judge them; report violations"""
+    jobs = [{"id": i, "db": S["db"], "text": render_input(S), "flags": ["dump"]} for i, S in enumerate(systems)]
+    res = vlib.run_inputs(jobs, timeout_each=40, workers=min(6, vlib.NCPU))
+    items = []       # (system index, case dict)
+    for i, S in enumerate(systems):
+        r = res.get(i, {})
+        if r.get("timeout") or r.get("crash") or "rc" not in r:
+            stats["timeout_or_crash"] += 1
+            continue
+        if r["rc"] != 0:
+            stats["error_runs(outside premises)"] += 1
+            continue
+        try:
+            cases = build_cases(chem, S, r)
+        except Skip as ex:
+            stats["skipped:" + str(ex)[:40]] = stats.get("skipped:" + str(ex)[:40], 0) + 1
+            continue
+        except Exception as ex:
+            ctx.obligation("dump-parser(%s #%d)" % (label, i), False, repr(ex))
+            continue
+        stats["systems_ok"] += 1
+        for c in cases:
+            c["warn"] = r.get("warn", "")
+            items.append((i, c))
+    if not items:
+        return
+    # shards, evaluated by parallel coqc processes
+    import concurrent.futures as cf
+    shard = 24
+    parts = [items[s0:s0 + shard] for s0 in range(0, len(items), shard)]
+
+    def prep(part):
+        cc = [c["coq"] for _, c in part]
+        rr, rmap = [], []
+        for k, (i, c) in enumerate(part):
+            t = c_rows(c, None, systems[i])
+            if t:
+                rmap.append(k)
+                rr.append(t)
+        return cc, rr, rmap
+
+    preps = [prep(p) for p in parts]
+    with cf.ThreadPoolExecutor(max_workers=min(5, max(1, vlib.NCPU // 3))) as ex:
+        futs = [ex.submit(coq_verdicts, cc, rr, use_gen) for cc, rr, _ in preps]
+        verdicts = [f.result() for f in futs]
+    for pi, part in enumerate(parts):
+        cc, rr, rmap = preps[pi]
+        verdict, out = verdicts[pi]
+        if verdict is None:
+            ctx.obligation("coq-evaluation(cases %s shard %d)" % (label, pi), False, out[-1500:])
+            verdict = ([None] * len(cc), [None] * len(rr))
+        rowv = dict(zip(rmap, verdict[1]))
+        for k, (i, c) in enumerate(part):
+            S = systems[i]
+            py_bad = diagnose(c)
+            c["skip_ho"] = bool(S["surface"]) and S["surface"]["mode"] in ("donnan", "donnan_oci", "diffuse_layer")
+            py_rows = diagnose_rows(c)
+            v1 = verdict[0][k]
+            v2 = rowv.get(k, True)
+            stats["cases"] += 1
+            ctx.case({"t": jobs[i]["text"], "sim": c["sim"]},
+                     sample={"system": features(S), "simulation": c["sim"], "steps": c["nsteps"], "reaction_amount_mol": float(c["amt"]),
+                             "elements": len(c["expected"]), "verdict": "conserved" if (v1 and v2) else "VIOLATED"},
+                     nontrivial=bool(c["amt"] != 0 or S["kin"] or len(features(S)) > 2))
+            if v1 is None:
+                v1, v2 = (not py_bad), (not py_rows)       # Coq unavailable: python mirror only (recorded as failed obligation above)
+            else:
+                if v1 != (not py_bad) or (v2 is not None and v2 != (not py_rows)):
+                    ctx.obligation("checker-vs-mirror agreement(%s #%d sim %d)" % (label, i, c["sim"]), False,
+                                   "coq=%s/%s python=%s/%s" % (v1, v2, py_bad[:2], py_rows[:2]))
+            if v1 and v2:
+                continue
+            rk_sig = bool(S["kin"]) and S["kin"]["rk"] != "cvode" and "Negative moles in solution" in c["warn"]
+            key = KEY_RK if rk_sig else "C02:" + vlib.key_of([jobs[i]["text"], c["sim"]])
+            what = ("element/charge inventory not conserved in simulation %d (%s)" % (c["sim"], ", ".join(features(S))))
+            if rk_sig:
+                what = ("rk_kinetics ignores MASS_BALANCE of the first reaction step and saves an unsolved system: "
+                        "inventory not conserved, no error (simulation %d)" % c["sim"])
+            ctx.violation(key, what, {"kind": "input", "input_text": jobs[i]["text"], "database": S["db"], "simulation": c["sim"],
+                                      "system": S, "observed": (py_bad + py_rows)[:8],
+                                      "expected": "after = before + reaction stoichiometry within 1e-6 of the inventory; no negative amounts",
+                                      "coq_verdict": [v1, v2]})
+            stats["violations"] += 1
+
+
+def run(ctx):
+    import collections
+    stats = collections.Counter()
+    ok = vlib.coq_stage(ctx, "Props/Properties_C02.vo", gen=gen, timeout=900)
+    # is the model side (without the generated file) still available?
+    use_gen = ok
+    if not ok:
+        r = vlib.coq_make(["C02/Checker.vo"], timeout=600)
+        if not r["C02/Checker.vo"][0]:
+            ctx.obligation("model builds without Gen (C02/Checker.vo)", False, r["C02/Checker.vo"][1][-1500:])
+    chem = Chem(os.path.join(vlib.DB, "phreeqc.dat"))
+    ctx.rule = ("random one-cell systems (SOLUTION or MIX + REACTION + any subset of EXCHANGE, SURFACE[ddl|donnan|diffuse_layer|no_edl], "
+                "EQUILIBRIUM_PHASES, GAS_PHASE[fixed p|fixed V], SOLID_SOLUTIONS, KINETICS[rk|cvode]), 1-6 reaction steps, cumulative or "
+                "incremental, 1-4 chained USE/SAVE simulations, DUMP -all after each; a case = one simulation; non-trivial = reaction amount "
+                "!= 0 or kinetics or >= 2 reactant kinds")
+    if ctx.replay:
+        rp = json.load(open(ctx.replay))
+        S = rp.get("system")
+        if not S:
+            ctx.obligation("replay file has a system description", False, ctx.replay)
+            return
+        run_systems(ctx, chem, [S], use_gen, stats, "replay")
+        ctx.extra["input_distribution"] = dict(stats)
+        return
+    run_systems(ctx, chem, corpus_systems(), use_gen, stats, "corpus")
+    n = ctx.n(70, 1500)
+    if not ok:
+        n = max(n, 200)        # broken tie: search harder for a concrete failing input (reaction-heavy by construction)
+    systems = [gen_system(ctx.rng) for _ in range(n)]
+    feat = collections.Counter()
+    for S in systems:
+        feat.update(features(S))
+    for b0 in range(0, n, 300):
+        run_systems(ctx, chem, systems[b0:b0 + 300], use_gen, stats, "random%d" % b0)
+    ctx.extra["input_distribution"] = {"systems": n, "features": dict(feat), "outcomes": dict(stats)}
+    ctx.trusted += ["independent parsers of RAW dumps, chemical formulas and PHASES blocks (props/c02.py)",
+                    "translator/c02_step.py (clang JSON AST -> Gallina); validated on every run by using gen_stepf in the correspondence",
+                    "equilibrium solver, kinetic integrator: oracles (Section variables eps / eq_result / kin transfer)",
+                    "tolerance: 1e-6 * inventory + 1e-24 mol (less than one atom); charge scale = sum |non-H,O inventories|"]
+    ctx.notes += ["fp rounding inside the engine not modelled; dumps carry 14 significant digits",
+                  "SYS() excludes diffuse-layer water: H and O are not compared per step when the surface has an explicit diffuse layer",
+                  "runs ending in ERROR are outside the premises (counted in input_distribution.outcomes)"]
